@@ -776,6 +776,7 @@ func c18Plan(r *Run) []c18Spec {
 		add(c18Spec{Kind: "legacy", When: whenLegacySub, Type: types[r.Rng.Intn(3)], Writes: 1 + r.Rng.Intn(3), Variant: "ctx-live", Times: 1})
 		add(c18Spec{Kind: "legacy", When: whenLegacySub, Type: types[r.Rng.Intn(3)], Writes: 1 + r.Rng.Intn(3), Variant: "ctx-live", Times: 1, NoRepl: true})
 		add(c18Spec{Kind: "legacy", When: whenIdle, Type: types[r.Rng.Intn(3)], Writes: 1 + r.Rng.Intn(3), Variant: "ctx-cancelled", Times: 1})
+		add(c18Spec{Kind: "legacy", When: whenLegacySub, Type: "eventlog", Writes: 1100, Variant: "stalled", Times: 1})
 		// real pubsub adapter and direct channel on a two-node mock network
 		add(c18Spec{Kind: "realnet", When: whenRealNet, Type: types[r.Rng.Intn(3)], Writes: 1 + r.Rng.Intn(3), Times: 1})
 		// measurements of racy behaviours (counters only)
@@ -3315,13 +3316,25 @@ func c18Legacy(r *Run, sp c18Spec, out *c18Result) error {
 	ch := st.Subscribe(cctx)
 	got := 0
 	consumerDone := make(chan struct{})
+	// variant "stalled": the consumer does not read anything until the store has been closed, and
+	// more events are pending for it than any buffer or window of the emitter holds
+	stalled := sp.Variant == "stalled"
+	startReading := make(chan struct{})
+	if !stalled {
+		close(startReading)
+	}
 	go func() {
 		defer close(consumerDone)
+		<-startReading
 		for range ch {
 			got++
 		}
 	}()
-	for i := 0; i < sp.Writes; i++ {
+	writes := sp.Writes
+	if stalled {
+		writes = 1100
+	}
+	for i := 0; i < writes; i++ {
 		if err := writeOp(r, s, st, i); err != nil {
 			return err
 		}
@@ -3331,6 +3344,14 @@ func c18Legacy(r *Run, sp c18Spec, out *c18Result) error {
 		cancel()
 	}
 	classes, msgs := closeMany(1, false, st.Close)
+	if stalled {
+		close(startReading)
+		select {
+		case <-consumerDone:
+		case <-time.After(20 * time.Second):
+			out.Direct = append(out.Direct, c18Direct{Sig: "hang:legacy-subscriber-after-close", What: "the channel of a legacy subscriber that had stalled was not closed within 20 s after the Close of the store although the subscriber drained it", Case: map[string]interface{}{"pending_writes": writes, "type": sp.Type}})
+		}
+	}
 	leaks := settleLeaks(before, leakBudget)
 	consumerEnded := false
 	select {
